@@ -161,6 +161,7 @@ func vs_any[T any](f func(T) bool) bool {
 func vs_fresh(p any) bool { return true }
 func vs_modifies(p any) {}
 func vs_visited(n int, k any) bool { return false }
+func vs_ranged[M any](n int) M { panic("vs_oracle: iterator state is not available at run time") }
 func vs_done(n int) int { return 0 }
 func vs_pos(n int) int { panic("vs_oracle: iterator positions are not available at run time") }
 func vs_called(callee string) bool { panic("vs_oracle: call history is not available at run time") }
